@@ -117,4 +117,31 @@ theorem C19_positive_det (tags : AList NT (AList DP ℝ)) :
   obtain ⟨z0, _, rfl⟩ := hz
   exact Real.exp_pos _
 
+/-- **C19_consistent (det).** If `log_probability t` returns `lp` then the program has a
+    derivation from the start symbol and `exp lp` is the product of the converted weights
+    (`to_prob_det_grammar`) along that derivation — `derivWeightDet`, the probability the
+    converted grammar gives to the derivation. -/
+theorem C19_consistent_det (rules : AList NT (AList DP (List NT))) (start : NT)
+    (tags : AList NT (AList DP ℝ)) (t : Prog) (lp : ℝ)
+    (h : logProbabilityDet rules start tags t = some lp) :
+    derivWeightDet rules start (toProbDet tags) t = some (Real.exp lp) :=
+  consistent_det rules start tags t lp h
+
+/-- **C19_encode (det).** If `encode t` returns a vector, then `t` has a derivation `d` from the
+    start symbol and the vector is the indicator of exactly the positions
+    `start(abs S) + index(P)` of the primitive rules `(S, P)` of `d` (all inside the tensor). -/
+theorem C19_encode_det (L : Layer) (rules : AList NT (AList DP (List NT))) (start : NT) (t : Prog)
+    (out : List ℕ) (h : encodeDet L rules start t = some out) :
+    ∃ d i n, derivDet rules t start [] = some (d, i, n)
+      ∧ out = indicator L.outputSize (positionsOf L d)
+      ∧ ∀ p ∈ positionsOf L d, p < L.outputSize :=
+  encode_det L rules start t out h
+
+/-- `reduce_derivations` of a deterministic grammar is the fold of the reducer over the
+    left-most derivation (used by both theorems above; stated for every reducer). -/
+theorem C19_reduce_is_fold {β : Type} (rules : AList NT (AList DP (List NT)))
+    (f : β → NT → DP → Option β) (t : Prog) (v : β) (start : NT) (info : List NT) :
+    reduceDet rules f t v start info = viaDeriv f v (derivDet rules t start info) :=
+  reduceDet_eq rules f t v start info
+
 end PS.Predictor
